@@ -1,6 +1,7 @@
 package scen
 
 import (
+	"context"
 	"fmt"
 	"strings"
 
@@ -176,11 +177,38 @@ func runC09(r *simkit.Run, c Cfg) {
 			}
 		})
 	}
+	// A consumer that gives up waiting now and then: it calls Next with a
+	// context that has ended. Such a call returns the context's error or an
+	// announcement that was waiting (which of the two is the runtime's pick
+	// when both are ready, so the call is repeated until the pick cannot
+	// matter: after 16 calls it has returned the waiting announcement with
+	// probability 1-2^-16, and what is not returned stays queued for the
+	// next call). What it must never do is take an announcement and not
+	// return it.
+	abandons := tp.Chance(1, 3, "abandonedNext")
+	gone, goneCancel := context.WithCancel(bg)
+	goneCancel()
 	r.Go("consumer", func(t *simkit.Task) {
 		for {
 			t.Yield("next")
 			if stop {
 				return
+			}
+			if abandons {
+				took := false
+				for k := 0; k < 16 && !took; k++ {
+					a, err := rc.Next(gone)
+					if err == nil {
+						got = append(got, a)
+						took = true
+					} else if err != context.Canceled {
+						r.Violate("c09.next", "Next with a cancelled context returned %v", err)
+					}
+				}
+				if took {
+					r.Probe("announcement-returned-to-a-caller-whose-context-had-ended")
+					continue
+				}
 			}
 			a, err := rc.Next(bg)
 			if err != nil {
